@@ -197,15 +197,34 @@ def run (ctx):
         ctx.ob('R-AGREE', rem, "filter `%s` compares the right tuple slot" % norm(cond), idx == want and isinstance(cond.ops[0], ast.NotEq),
                "slot %s, != " % idx if idx == want else "filter uses slot %s where entries are (priority, handler, once, eid)" % idx, (mod, n), 'D4')
   # a removal must not hide behind a short-circuit: `altered = altered or self._remove(...)` stops removing after the first hit
-  for n in ast.walk(rem.node):
-    if isinstance(n, ast.BoolOp):
-      for v in n.values[1:]:
+  def changes_table (fn, depth=0):
+    if list(q.mutations_of_attr(fn.node, TABLE)) or [1 for t, v_, s_, k in q.stores_in(fn.node) if isinstance(t, ast.Subscript) and q.mentions_attr(t, TABLE)]: return True
+    if depth >= 2: return False
+    for c in calls_in(fn.node):
+      if isinstance(c.func, ast.Attribute) and norm(c.func.value) == 'self':
+        cal = em.find_method(call_name(c))
+        if cal is not None and cal is not fn and changes_table(cal, depth + 1): return True
+    return False
+  n_bool = 0
+  for meth in em.methods.values():
+    for n in ast.walk(meth.node):
+      conditional = []
+      # the accumulator form `flag = flag or <removal>`: the left operand is the running result itself
+      if isinstance(n, ast.Assign) and len(n.targets) == 1 and isinstance(n.targets[0], ast.Name) and isinstance(n.value, ast.BoolOp):
+        b = n.value
+        for i, v in enumerate(b.values[1:], 1):
+          if any(isinstance(x, ast.Name) and x.id == n.targets[0].id for lv in b.values[:i] for x in ast.walk(lv)):
+            conditional.append((v, 'or' if isinstance(b.op, ast.Or) else 'and'))
+      for v, opn in conditional:
         for c in calls_in(v):
           callee = em.find_method(call_name(c)) if isinstance(c.func, ast.Attribute) and norm(c.func.value) == 'self' else None
-          if callee is not None and list(q.mutations_of_attr(callee.node, TABLE)) + [1 for t, v_, s_, k in q.stores_in(callee.node) if isinstance(t, ast.Subscript) and q.mentions_attr(t, TABLE)]:
-            ctx.bad('R-EFFECT', rem, "every removal is executed (`%s`)" % norm(n)[:60],
-                    "`%s` changes the handler table but is the right operand of `%s`: once the left operand is true it is not evaluated - a handler subscribed to several "
-                    "event types is removed from the first one only and keeps being invoked for the others" % (norm(c)[:60], 'or' if isinstance(n.op, ast.Or) else 'and'), (mod, n), 'D4')
+          if callee is not None and changes_table(callee):
+            n_bool += 1
+            # harmless when the left operands cannot be true/false across iterations, i.e. outside any loop and not loop-carried: still a skipped removal
+            ctx.bad('R-EFFECT', meth, "every removal is executed (`%s`)" % norm(n)[:60],
+                    "`%s` changes the handler table but is the right operand of `%s`: once the left operand decides the result it is not evaluated - the remaining "
+                    "removals (other event types of the same handler, the other listeners of the list) are silently skipped and those handlers keep being invoked" % (norm(c)[:60], opn), (mod, n), 'D4')
+  ctx.stat('table-changing calls in short-circuit position', n_bool)
 
   # ---- D5 declared events ----------------------------------------------------------------
   undeclared = [('self._eventMixin_events is not True', True), ('eventType not in self._eventMixin_events', True), ('byName', False)]
@@ -253,6 +272,31 @@ def run (ctx):
     for nm, node in defs.undefined_names(repo, f):
       ctx.bad('R-DEF', f, "undefined name `%s`" % nm, "the exception hook itself raises", (f.module, node), 'D6')
 
+  # the hook runs inside the catch-all of raiseEventNoErrors: what it raises replaces the handler's exception and is swallowed there,
+  # but the log record is lost.  Decidable part: `fmt % x` with x the raiser's *args tuple / **kw dict formats only for one shape.
+  for c in hk:
+    va = rne.node.args.vararg.arg if rne.node.args.vararg else None
+    ka = rne.node.args.kwarg.arg if rne.node.args.kwarg else None
+    for f in (hook, dflt):
+      if f is None: continue
+      shapes = {}
+      for i, a in enumerate(c.args):
+        if i < len(f.params) and isinstance(a, ast.Name) and a.id in (va, ka): shapes[f.params[i]] = 'tuple' if a.id == va else 'dict'
+      fg = q.cfg_of(f)
+      stored = set(t.id for t, v_, s_, k in q.stores_in(f.node) if isinstance(t, ast.Name))
+      for n in ast.walk(f.node):
+        if isinstance(n, ast.BinOp) and isinstance(n.op, ast.Mod) and isinstance(n.left, ast.Constant) and isinstance(n.left.value, str) \
+           and isinstance(n.right, ast.Name) and shapes.get(n.right.id) == 'tuple' and n.right.id not in stored:
+          sn = q.enclosing_stmt_node(fg, n)
+          if sn is None: continue
+          hs_ = fg.handlers_for(sn)
+          contained = any(h.ast.type is None or norm(h.ast.type) in ('BaseException', 'Exception', 'TypeError') for h in hs_)
+          one = any(f_ in ('len(%s) == 1' % n.right.id,) for f_ in q.fact_strs(fg, sn))
+          nspec = len([x for x in n.left.value.replace('%%', '').split('%')[1:]])
+          if not contained and not one:
+            ctx.bad('R-CONTAIN', f, "the exception hook itself cannot raise (`%s`)" % norm(n)[:50],
+                    "`%s` is the tuple of extra arguments the event was raised with: formatting it with %d conversion(s) raises TypeError unless it has exactly %d element(s) - "
+                    "the hook fails instead of logging the handler's exception" % (n.right.id, nspec, nspec), (f.module, n), 'D6')
   # ---- D7 weak handlers ------------------------------------------------------------------------
   cp = repo.cls(RV, 'CallProxy'); ci = cp.methods.get('__init__'); fm = cp.methods.get('_forgetMe')
   if ci is None or fm is None: raise AnalysisError("CallProxy.__init__/_forgetMe vanished")
